@@ -145,6 +145,11 @@ def make_case(ctx, g):
         if isinstance(out1, tuple) and out1[0] == "exc":
             ctx.count("exporter-raised:" + name + ":" + out1[1])
             continue
+        if name == "json" and isinstance(out1, str) and "\n" in out1:
+            # the text of an export is a function of the document and of the options of *this* call: without `indent` PROV-JSON
+            # is one line (line feeds inside strings are escaped), whatever options an earlier call was given
+            fails.append(Failure("oracle", None, "json export without options is laid out over several lines: an option of an "
+                                 "earlier call is still in force", case))
         if name in TEXT or name == "rdf":
             out2 = run_export(g, doc, name, opts)
             out3 = run_export(g, twin, name, opts) if twin_world is not None else out2
